@@ -71,7 +71,7 @@ class Check(FormulaCheck):
     ASSUMPTIONS = ('results beyond 1.79e308 (overflow) are not judged; band 1e-9 relative (absolute below 1)',
                    'ACOT on non-positive arguments is judged only through COT(ACOT(x)) = x and |ACOT(x)| <= pi',
                    'outside the domain or for non-numeric text any error code is accepted, never a number',
-                   'PV: where (1+r)^n overflows/underflows a double an error is not judged, a number is; RANDBETWEEN with integer bounds a <= b')
+                   'PV: where (1+r)^n overflows/underflows a double an error is not judged, a number is; RANDBETWEEN with a <= b and an integer between them')
 
     def plan(self, tier, seed):
         q = tier == 'quick'
@@ -349,6 +349,10 @@ class Check(FormulaCheck):
             b = a + rnd.choice([0, 1, 2, 10, rnd.randint(0, 10 ** 6)])
             g = self.ev('RANDBETWEEN(v_a,v_b)', v_a=a, v_b=b)
             self.expect('C16/RANDBETWEEN-not-an-integer-in-[a,b]', is_num(g) and g == int(g) and a <= g <= b, a=a, b=b, got=g)
+            # bounds that are not whole numbers: still an integer of [a, b] (there is one when ceil(a) <= floor(b))
+            fa, fb = a + rnd.choice([0.5, 0.25, -0.5, 0.999, 0]), b + rnd.choice([0.5, 0.75, 1.5, 0.001, 0]) + 1
+            g = self.ev('RANDBETWEEN(v_a,v_b)', v_a=fa, v_b=fb)
+            self.expect('C16/RANDBETWEEN-not-an-integer-in-[a,b]:bounds-not-whole', is_num(g) and g == int(g) and fa <= g <= fb, a=fa, b=fb, got=g)
             rec.nt(('rb', a, b))
         self.expect('C16/RAND-not-random', len(seen) > spec['n'] // 2, distinct=len(seen))
         # fault injection at the random source: whatever the generator draws - also its extremes 0.0 and 1-2**-53, which no sampling run
